@@ -13,9 +13,9 @@
              region's 5' position in the input (`insertSpec`) — because the indices are applied
              in descending order; ascending order is wrong (`…_ascending_refuted`);
     split    linear: the pieces concatenate to the input; circular with at least two distinct
-             cuts: to the input re-origined at the last cut; circular with several located
-             regions sharing ONE cut: one EMPTY piece (`split_circular_one_cut_refuted`, a
-             defect of split.go);
+             cuts: to the input re-origined at the last cut; circular with ONE distinct cut
+             (one region, or several sharing it): the record rotated to that position;
+             together `split_concat_circular_any`, for every non-empty collection;
     rotate   the head of the first located region becomes position 0;
     extract  the emitted regions are the first occurrences of the located ones (or, with `-v`,
              exactly the maximal unlocated stretches, by C09), filtered by length.
@@ -203,12 +203,15 @@ theorem split_nil (loc : Seq → List Reg) (circular : Bool) (s : Seq) (h : loc 
     Cli.split loc circular s = [s] := by
   simp only [Cli.split, h]
 
-/-- at least one located region: one rotation (circular, exactly one region), else the pieces
-between consecutive cuts — linear: `0, cuts…, len`; circular: `last cut, cuts…` -/
+/-- at least one located region: one rotation (circular and exactly one region: at its head;
+circular and exactly one distinct cut: at that cut), else the pieces between consecutive cuts —
+linear: `0, cuts…, len`; circular: `last cut, cuts…` -/
 theorem split_cons (loc : Seq → List Reg) (circular : Bool) (s : Seq) (r0 : Reg) (rest : List Reg)
     (h : loc s = r0 :: rest) :
     Cli.split loc circular s =
       if (r0 :: rest).length = 1 ∧ circular then [s.rotate (-(r0.head))]
+      else if circular ∧ (Cli.sortAscU ((r0 :: rest).map Cli.cutOf)).length = 1 then
+        [s.rotate (-((Cli.sortAscU ((r0 :: rest).map Cli.cutOf)).headD 0))]
       else Cli.pieces s (if circular
         then (Cli.sortAscU ((r0 :: rest).map Cli.cutOf)).getLast?.toList ++
           Cli.sortAscU ((r0 :: rest).map Cli.cutOf)
@@ -328,28 +331,75 @@ theorem split_concat_circular (loc : Seq → List Reg) (s : Seq)
       have e : c.toNat = a.toNat + (c - a).toNat := by omega
       rw [e, List.take_add]
 
-/-- DEFECT (split.go, reported): on a CIRCULAR record, several located regions that share ONE
-cut position are not handled like a single region: `splits` becomes `[c, c]` and the output is
-ONE EMPTY record — every residue is lost.  Here: `ACGTAC`, two regions with head 2. -/
-theorem split_circular_one_cut_refuted :
-    (Cli.split (fun _ => [seg 2 4, seg 2 5]) true ⟨[], [65, 67, 71, 84, 65, 67]⟩).map (·.bytes) = [[]] := by
+/-- **circular split, several located regions sharing ONE distinct cut** `c` (e.g. a gene and its
+CDS): the circle is opened at `c` — one piece, the record rotated so that `c` becomes position 0
+(split.go after repair 78dc8d4; before it the output was ONE EMPTY record). -/
+theorem split_circular_one_cut (loc : Seq → List Reg) (s : Seq) (r0 r1 : Reg) (rest : List Reg)
+    (h : loc s = r0 :: r1 :: rest) (c : Int)
+    (hc : Cli.sortAscU ((loc s).map Cli.cutOf) = [c]) :
+    Cli.split loc true s = [s.rotate (-c)] := by
+  rw [split_cons loc true s r0 (r1 :: rest) h, ← h, hc]
+  simp [h]
+
+/-- … whose residues are the input re-origined at that cut. -/
+theorem split_circular_one_cut_bytes (loc : Seq → List Reg) (s : Seq) (r0 r1 : Reg) (rest : List Reg)
+    (h : loc s = r0 :: r1 :: rest) (c : Int)
+    (hc : Cli.sortAscU ((loc s).map Cli.cutOf) = [c])
+    (hL : 0 < s.len) (h0 : 0 ≤ c) (h1 : c ≤ s.len) :
+    (Cli.split loc true s).map (·.bytes) = [s.bytes.drop c.toNat ++ s.bytes.take c.toNat] := by
+  rw [split_circular_one_cut loc s r0 r1 rest h c hc, List.map_singleton,
+    Cli.rotate_neg_bytes s c h0 h1 hL]
+
+/-- the witness of the repaired defect F24: `ACGTAC`, circular, two regions with head 2 -/
+theorem split_circular_one_cut_example :
+    (Cli.split (fun _ => [seg 2 4, seg 2 5]) true ⟨[], [65, 67, 71, 84, 65, 67]⟩).map (·.bytes)
+      = [[71, 84, 65, 67, 65, 67]] := by
   decide
 
-/-- … so the hypothesis "at least two distinct cuts" of `split_concat_circular` cannot be
-weakened to "at least two located regions". -/
-theorem split_circular_two_regions_refuted :
-    ¬ (∀ (loc : Seq → List Reg) (s : Seq),
-        (∀ r ∈ loc s, 0 ≤ Cli.cutOf r ∧ Cli.cutOf r ≤ s.len) → 2 ≤ (loc s).length →
-        ∃ c, ((Cli.split loc true s).map (·.bytes)).flatten =
-          s.bytes.drop c ++ s.bytes.take c) := by
-  intro h
-  obtain ⟨c, hc⟩ := h (fun _ => [seg 2 4, seg 2 5]) ⟨[], [65, 67, 71, 84, 65, 67]⟩ (by decide) (by decide)
-  have hlen := congrArg List.length hc
-  rw [show ((Cli.split (fun _ => [seg 2 4, seg 2 5]) true ⟨[], [65, 67, 71, 84, 65, 67]⟩).map
-    (·.bytes)) = [[]] from split_circular_one_cut_refuted] at hlen
-  simp only [List.length_append, List.length_drop, List.length_take, List.flatten_cons,
-    List.flatten_nil, List.length_nil, List.length_cons] at hlen
-  omega
+/-- **circular split, at full strength**: for ANY non-empty collection of located regions on a
+non-empty circular record, with every head and every cut inside `[0, len]`, the pieces,
+concatenated in the order they are written, are the input re-origined at a located position `c`
+— the head of the only region, the only distinct cut, or the last of several distinct cuts. -/
+theorem split_concat_circular_any (loc : Seq → List Reg) (s : Seq) (hne : loc s ≠ [])
+    (hL : 0 < s.len)
+    (hw : ∀ r ∈ loc s, 0 ≤ Cli.cutOf r ∧ Cli.cutOf r ≤ s.len ∧ 0 ≤ r.head ∧ r.head ≤ s.len) :
+    ∃ c, (∃ r ∈ loc s, c = Cli.cutOf r ∨ c = r.head) ∧
+      ((Cli.split loc true s).map (·.bytes)).flatten =
+        s.bytes.drop c.toNat ++ s.bytes.take c.toNat := by
+  cases hl : loc s with
+  | nil => exact absurd hl hne
+  | cons r0 rest =>
+    cases rest with
+    | nil =>
+      have hr := hw r0 (by rw [hl]; simp)
+      refine ⟨r0.head, ⟨r0, by simp, Or.inr rfl⟩, ?_⟩
+      rw [split_circular_single_bytes loc s r0 hl hL hr.2.2.1 hr.2.2.2]
+      simp
+    | cons r1 rest =>
+      have hcut : ∀ x ∈ Cli.sortAscU ((loc s).map Cli.cutOf), ∃ r ∈ loc s, x = Cli.cutOf r := by
+        intro x hx
+        obtain ⟨r, hr, rfl⟩ := List.mem_map.mp ((Cli.mem_sortAscU x _).mp hx)
+        exact ⟨r, hr, rfl⟩
+      rw [← hl]
+      by_cases h1 : (Cli.sortAscU ((loc s).map Cli.cutOf)).length = 1
+      · obtain ⟨c, hc⟩ := List.length_eq_one_iff.mp h1
+        obtain ⟨r, hr, hrc⟩ := hcut c (by rw [hc]; simp)
+        have hb := hw r hr
+        refine ⟨c, ⟨r, hr, Or.inl hrc⟩, ?_⟩
+        rw [split_circular_one_cut_bytes loc s r0 r1 rest hl c hc hL (by omega) (by omega)]
+        simp
+      · have h2 : 2 ≤ (Cli.sortAscU ((loc s).map Cli.cutOf)).length := by
+          have : (Cli.sortAscU ((loc s).map Cli.cutOf)).length ≠ 0 := by
+            intro h0
+            have hnil := List.eq_nil_of_length_eq_zero h0
+            have : Cli.cutOf r0 ∈ Cli.sortAscU ((loc s).map Cli.cutOf) :=
+              (Cli.mem_sortAscU _ _).mpr (List.mem_map.mpr ⟨r0, by rw [hl]; simp, rfl⟩)
+            rw [hnil] at this; cases this
+          omega
+        obtain ⟨c, hlast, _, hcat⟩ := split_concat_circular loc s
+          (fun r hr => ⟨(hw r hr).1, (hw r hr).2.1⟩) h2
+        obtain ⟨r, hr, hrc⟩ := hcut c (List.mem_of_getLast? hlast)
+        exact ⟨c, ⟨r, hr, Or.inl hrc⟩, hcat⟩
 
 /-! ## rotate -/
 
